@@ -149,7 +149,16 @@ Sites(q) == <<
   [site |-> "cycle",    pre |-> "{% cycle ", post |-> ", 'b' %}", before |-> "", after |-> "", hit |-> FALSE],
   [site |-> "array-literal", pre |-> "{{ 'a', ", post |-> " | last }}", before |-> "", after |-> "", hit |-> FALSE],
   [site |-> "interpolated", pre |-> "{{ " \o Other(q) \o "<${", post |-> "}>" \o Other(q) \o " }}", before |-> "<", after |-> ">", hit |-> FALSE],
-  [site |-> "lambda",   pre |-> "{{ xs | where: i => i == ", post |-> " | first }}", before |-> "", after |-> "", hit |-> FALSE] >>
+  [site |-> "lambda",   pre |-> "{{ xs | where: i => i == ", post |-> " | first }}", before |-> "", after |-> "", hit |-> FALSE],
+  \* the optional slots of an expression or tag: a literal is present whatever its value (empty, zero)
+  [site |-> "ternary-else", pre |-> "{{ 'y' if false else ", post |-> " }}", before |-> "", after |-> "", hit |-> FALSE],
+  [site |-> "ternary-else-filtered", pre |-> "{{ 'y' if false else ", post |-> " | append: '!' }}", before |-> "", after |-> "!", hit |-> FALSE],
+  [site |-> "include-with", pre |-> "{% include 'p' with ", post |-> " as v %}", before |-> "<", after |-> ">", hit |-> FALSE],
+  [site |-> "render-with", pre |-> "{% render 'p' with ", post |-> " as v %}", before |-> "<", after |-> ">", hit |-> FALSE],
+  \* the literal is all a control-flow block writes (a block of nothing but blank nodes is suppressed: a literal is not blank)
+  [site |-> "block-output", pre |-> "[{% if true %} {% assign k = 1 %}{{ ", post |-> " }}{% endif %}]", before |-> "[ ", after |-> "]", hit |-> FALSE],
+  [site |-> "block-echo", pre |-> "[{% for i in (1..1) %}{% echo ", post |-> " %}{% endfor %}]", before |-> "[", after |-> "]", hit |-> FALSE],
+  [site |-> "block-when", pre |-> "[{% case 1 %}{% when 1 %}{{ ", post |-> " }}{% endcase %}]", before |-> "[", after |-> "]", hit |-> FALSE] >>
 \* the body of the literal as the text part of a template string: followed by an interpolation
 TStrSite == [site |-> "template-string-text", pre |-> "{{ ", post |-> " }}", before |-> "", after |-> "!", hit |-> FALSE]
 
@@ -161,7 +170,7 @@ ExportStr ==
         ss == Sites(quote)
         wide == Len(units) <= 1
     IN /\ \A i \in DOMAIN ss :
-            (wide \/ (Len(units) = 2 /\ ss[i].site \in {"output", "path-segment", "interpolated", "include-name", "render-name"})
+            (wide \/ (Len(units) = 2 /\ ss[i].site \in {"output", "path-segment", "interpolated", "include-name", "render-name", "block-output"})
                   \/ (Len(units) >= 3 /\ ss[i].site = "output")) =>
               Emit(ToJson([focus |-> Focus, kind |-> "str", site |-> ss[i].site, quote |-> quote,
                            src |-> Cps(ss[i].pre) \o lit \o Cps(ss[i].post), value |-> Value(units),
@@ -183,9 +192,17 @@ RECURSIVE SeqsUpTo(_, _)
 SeqsUpTo(E, k) == IF k = 0 THEN {<<>>} ELSE SeqsUpTo(E, k - 1) \cup {Append(s, x) : s \in SeqsUpTo(E, k - 1), x \in E}
 JLevel1 == JScalars \cup {JArr(s) : s \in SeqsUpTo(JScalars, 2)} \cup {JHash(<<<<k, v>>>>) : k \in Keys, v \in JScalars}
 JProbe == {JArr(<<a, JHash(<<<<<<97>>, b>>, <<<<34>>, a>>>>)>>) : a \in JScalars, b \in {JArr(<<>>), JHash(<<>>), JArr(<<JStr(<<92, 117>>)>>)}}
+\* arrays inside arrays (and inside hashes inside arrays) keep their shape
+JSmall == {[t |-> "nil"], [t |-> "int", n |-> 0], JStr(<<34, 92>>)}
+JFlat == {JArr(s) : s \in SeqsUpTo(JSmall, 2)}
+JNested == {JArr(<<a, b>>) : a \in JFlat, b \in JFlat \cup JSmall}
+           \cup {JArr(<<a>>) : a \in JFlat}
+           \cup {JArr(<<x, JArr(<<y, JArr(<<z>>)>>)>>) : x \in JSmall, y \in JSmall, z \in JSmall}
+           \cup {JArr(<<JArr(<<>>), JArr(<<JArr(<<>>)>>)>>), JArr(<<JArr(<<JArr(<<JArr(<<JArr(<<JArr(<<[t |-> "int", n |-> 0]>>)>>)>>)>>)>>)>>)}
+           \cup {JHash(<<<<<<97>>, JArr(<<a, b>>)>>>>) : a \in JFlat, b \in JSmall}
 ExportJson ==
   (Mode = "json" /\ units = <<>> /\ quote = DQ) =>
-    \A v \in JLevel1 \cup JProbe : Emit(ToJson([focus |-> Focus, kind |-> "json", value |-> v]) \o "\n")
+    \A v \in JLevel1 \cup JProbe \cup JNested : Emit(ToJson([focus |-> Focus, kind |-> "json", value |-> v]) \o "\n")
 
 Export == ExportStr /\ ExportNum /\ ExportJson
 =============================================================================
